@@ -136,6 +136,8 @@ def oracle(case, stats):
     stats.count("f:" + meta["f_kind"])
     stats.count("replace_all:%s" % rall)
     stats.count("shared:%s" % ("yes" if sh else "no"))
+    d = case.get("pdress")
+    stats.count("patterns:%s" % ("plain" if not d else "own-labels" + ("+extra-columns" if d["rextra"] or d["sextra"] else "")))
     stats.count("cell:" + meta["cell_cls"])
     stats.count("k:%s" % (k if k < 4 else "4+"))
     for c in meta["copies"]:
@@ -149,5 +151,5 @@ def oracle(case, stats):
 CLASSES = gen_geom.PATTERN_CLASSES + ["mirror-pair", "mirror-pair", "chiral"]
 
 PARTS = [
-    HypPart("accounting", lambda tier: repl.replace_case(pattern_classes=CLASSES), oracle, {"quick": 10000, "thorough": 80000}),
+    HypPart("accounting", lambda tier: repl.replace_case(pattern_classes=CLASSES, dressed=True), oracle, {"quick": 10000, "thorough": 80000}),
 ]
